@@ -105,6 +105,15 @@ func MakeTree(r *rand.Rand, root string, features int) (TreeInfo, error) {
 			}
 		}
 	}
+	if features >= 1 && r.Intn(2) == 0 {
+		// a symlink to an empty directory, reachable by two routes: directly and through a second
+		// directory symlink to its parent (no cycle anywhere)
+		if os.MkdirAll(filepath.Join(root, "hub", "nothing-inside"), 0755) == nil {
+			os.Symlink("nothing-inside", filepath.Join(root, "hub", "to-empty"))
+			os.Symlink("hub", filepath.Join(root, "second-route"))
+			info.DirLinks += 2
+		}
+	}
 	if features >= 2 {
 		d := dirs[r.Intn(len(dirs))]
 		switch r.Intn(5) {
